@@ -558,6 +558,7 @@ func C17(r *h.Run) {
 		}
 	}
 	r.Note("compiled %d generated packages with go build + go vet", compiled)
+	c17CrossPackageTypes(r, plugin)
 	c17CheckedIn(r, plugin, repo)
 	_ = os.Remove(plugin)
 	if genGo != "" {
@@ -589,4 +590,158 @@ func duplicateFields(src string) string {
 		return true
 	})
 	return dup
+}
+
+// c17CrossPackageTypes: request and response types that live in OTHER Go packages than the
+// service's, two of them with the same Go type name (users.v1.GetRequest, orders.v1.GetRequest; a
+// local Empty next to another package's Empty). Every place of the generated code that names a
+// method's types names the right package: the source is parsed, and for each method all
+// occurrences of *connect_go.Request[pkg.T] / Response[pkg.T] / stream types that sit in that
+// method's declarations must agree with the types the descriptor gives the method.
+func c17CrossPackageTypes(r *h.Run, plugin string) {
+	msg := func(name string) *descriptorpb.DescriptorProto {
+		return &descriptorpb.DescriptorProto{Name: proto.String(name), Field: []*descriptorpb.FieldDescriptorProto{{Name: proto.String("v"), Number: proto.Int32(1), Type: descriptorpb.FieldDescriptorProto_TYPE_BYTES.Enum(), Label: descriptorpb.FieldDescriptorProto_LABEL_OPTIONAL.Enum(), JsonName: proto.String("v")}}}
+	}
+	dep := func(file, pkg, gopkg string, names ...string) *descriptorpb.FileDescriptorProto {
+		fd := &descriptorpb.FileDescriptorProto{Name: proto.String(file), Package: proto.String(pkg), Syntax: proto.String("proto3"), Options: &descriptorpb.FileOptions{GoPackage: proto.String(gopkg)}}
+		for _, n := range names {
+			fd.MessageType = append(fd.MessageType, msg(n))
+		}
+		return fd
+	}
+	users := dep("users/v1/users.proto", "users.v1", "example.com/gen/users/v1;usersv1", "GetRequest", "GetResponse", "Empty")
+	orders := dep("orders/v1/orders.proto", "orders.v1", "example.com/gen/orders/v1;ordersv1", "GetRequest", "GetResponse", "Empty")
+	type meth struct {
+		name, in, out string
+		cs, ss        bool
+	}
+	for vi, methods := range [][]meth{
+		{{"GetUser", ".users.v1.GetRequest", ".users.v1.GetResponse", false, false}, {"GetOrder", ".orders.v1.GetRequest", ".orders.v1.GetResponse", false, false}},
+		{{"GetOrder", ".orders.v1.GetRequest", ".orders.v1.GetResponse", false, true}, {"GetUser", ".users.v1.GetRequest", ".users.v1.GetResponse", true, false}, {"Both", ".users.v1.GetRequest", ".orders.v1.GetResponse", true, true}},
+		{{"Ping", ".api.v1.Empty", ".users.v1.Empty", false, false}, {"Pong", ".orders.v1.Empty", ".api.v1.Empty", false, false}},
+	} {
+		api := dep("api/v1/api.proto", "api.v1", "example.com/gen/api/v1;apiv1", "Empty")
+		api.Dependency = []string{users.GetName(), orders.GetName()}
+		sd := &descriptorpb.ServiceDescriptorProto{Name: proto.String("Gateway")}
+		for _, m := range methods {
+			md := &descriptorpb.MethodDescriptorProto{Name: proto.String(m.name), InputType: proto.String(m.in), OutputType: proto.String(m.out)}
+			if m.cs {
+				md.ClientStreaming = proto.Bool(true)
+			}
+			if m.ss {
+				md.ServerStreaming = proto.Bool(true)
+			}
+			sd.Method = append(sd.Method, md)
+		}
+		api.Service = []*descriptorpb.ServiceDescriptorProto{sd}
+		req := &pluginpb.CodeGeneratorRequest{FileToGenerate: []string{api.GetName()}, ProtoFile: []*descriptorpb.FileDescriptorProto{users, orders, api}}
+		var desc []string
+		for _, m := range methods {
+			desc = append(desc, fmt.Sprintf("rpc %s(%s) returns (%s)", m.name, m.in[1:], m.out[1:]))
+		}
+		in := map[string]any{"file": "api/v1/api.proto (go_package example.com/gen/api/v1;apiv1) importing users/v1/users.proto and orders/v1/orders.proto, which both declare GetRequest, GetResponse, Empty", "service Gateway": desc}
+		r.Eval("cross_package_types", fmt.Sprint(vi))
+		res, err := runPlugin(plugin, req)
+		if err != nil || res.Error != nil || len(res.File) != 1 {
+			r.Fail(h.Failure{Key: "codegen/generator-fails", Family: "cross_package_types", What: "the generator failed on a valid file", Input: in, Actual: fmt.Sprint(err, " ", res.GetError())})
+			continue
+		}
+		src := res.File[0].GetContent()
+		fset := token.NewFileSet()
+		file, perr := parser.ParseFile(fset, "gen.go", src, 0)
+		if perr != nil {
+			r.Fail(h.Failure{Key: "codegen/does-not-parse", Family: "cross_package_types", What: "generated code does not parse", Input: in, Actual: perr.Error()})
+			continue
+		}
+		// import alias -> import path
+		alias := map[string]string{}
+		for _, im := range file.Imports {
+			path := strings.Trim(im.Path.Value, "\"")
+			name := path[strings.LastIndex(path, "/")+1:]
+			if im.Name != nil {
+				name = im.Name.Name
+			}
+			alias[name] = path
+		}
+		goPkg := map[string]string{"users.v1": "example.com/gen/users/v1", "orders.v1": "example.com/gen/orders/v1", "api.v1": "example.com/gen/api/v1"}
+		want := func(full string) string { // ".users.v1.GetRequest" -> "example.com/gen/users/v1.GetRequest"
+			full = full[1:]
+			i := strings.LastIndex(full, ".")
+			return goPkg[full[:i]] + "." + full[i+1:]
+		}
+		// every type argument pair found inside a declaration that belongs to method m
+		var problems []string
+		checked := 0
+		for _, m := range methods {
+			wantIn, wantOut := want(m.in), want(m.out)
+			ast.Inspect(file, func(n ast.Node) bool {
+				var ftype *ast.FuncType
+				switch x := n.(type) {
+				case *ast.FuncDecl:
+					if x.Name.Name == m.name {
+						ftype = x.Type
+					}
+				case *ast.Field:
+					if len(x.Names) == 1 && x.Names[0].Name == m.name {
+						ftype, _ = x.Type.(*ast.FuncType)
+					}
+				}
+				if ftype == nil {
+					return true
+				}
+				ast.Inspect(ftype, func(k ast.Node) bool {
+					ix, ok := k.(*ast.IndexExpr)
+					var args []ast.Expr
+					var gen string
+					if ok {
+						args = []ast.Expr{ix.Index}
+						if se, ok := ix.X.(*ast.SelectorExpr); ok {
+							gen = se.Sel.Name
+						}
+					} else if il, ok2 := k.(*ast.IndexListExpr); ok2 {
+						args = il.Indices
+						if se, ok := il.X.(*ast.SelectorExpr); ok {
+							gen = se.Sel.Name
+						}
+					} else {
+						return true
+					}
+					var got []string
+					for _, a := range args {
+						if se, ok := a.(*ast.SelectorExpr); ok {
+							if id, ok := se.X.(*ast.Ident); ok {
+								got = append(got, alias[id.Name]+"."+se.Sel.Name)
+							}
+						} else if id, ok := a.(*ast.Ident); ok {
+							got = append(got, goPkg["api.v1"]+"."+id.Name)
+						}
+					}
+					var exp []string
+					switch gen {
+					case "Request", "ClientStream":
+						exp = []string{wantIn}
+					case "Response", "ServerStream", "ServerStreamForClient":
+						exp = []string{wantOut}
+					case "BidiStream", "ClientStreamForClient", "BidiStreamForClient":
+						exp = []string{wantIn, wantOut}
+					default:
+						return true
+					}
+					checked++
+					if fmt.Sprint(got) != fmt.Sprint(exp) {
+						problems = append(problems, fmt.Sprintf("%s: connect.%s%v, the descriptor says %v", m.name, gen, got, exp))
+					}
+					return true
+				})
+				return true
+			})
+		}
+		r.Sample("cross_package_types", map[string]any{"in": in, "type_arguments_checked": checked})
+		if checked == 0 {
+			problems = append(problems, "no method signature found in the generated code")
+		}
+		if len(problems) > 0 {
+			r.Fail(h.Failure{Key: "codegen/wrong-message-type", Family: "cross_package_types", What: "a generated signature names another message type than the method's (the package does not type-check: the client and handler constructors name the right ones)", Input: in, Actual: problems})
+		}
+	}
 }
